@@ -497,6 +497,35 @@ func main() {
 	if isLvl == 0 {
 		die("the IS productions are gone")
 	}
-	w("def postfixOps : List Term := [.IS]\ndef negationToken : Term := .NOT\n\nend Csvq.Gen.Precedence\n")
+	w("def postfixOps : List Term := [.IS]\ndef negationToken : Term := .NOT\n\n")
+	// the NOT forms and the operators with more than two operands: `value NOT T value`, `value [NOT] T value U value`,
+	// `value [NOT] T row_value`
+	var negs, btws, ins []string
+	for _, p := range prods {
+		for _, s := range p.rhs {
+			if levelOf(s) == 0 && strings.ToUpper(s) == s && s != "ANY" && s != "ALL" && s != "EXISTS" && !strings.HasPrefix(s, "'") {
+				die("terminal %s of production %v has no precedence declaration", s, p.rhs)
+			}
+		}
+		if p.prec != "" {
+			continue
+		}
+		r := p.rhs
+		switch {
+		case len(r) == 4 && r[0] == "value" && r[1] == "NOT" && r[3] == "value":
+			negs = append(negs, "."+termName(r[2]))
+		case len(r) == 5 && r[0] == "value" && r[2] == "value" && r[4] == "value":
+			btws = append(btws, fmt.Sprintf("(.%s, .%s, false)", termName(r[1]), termName(r[3])))
+		case len(r) == 6 && r[0] == "value" && r[1] == "NOT" && r[3] == "value" && r[5] == "value":
+			btws = append(btws, fmt.Sprintf("(.%s, .%s, true)", termName(r[2]), termName(r[4])))
+		case len(r) == 3 && r[0] == "value" && r[2] == "row_value":
+			ins = append(ins, fmt.Sprintf("(.%s, false)", termName(r[1])))
+		case len(r) == 4 && r[0] == "value" && r[1] == "NOT" && r[3] == "row_value":
+			ins = append(ins, fmt.Sprintf("(.%s, true)", termName(r[2])))
+		}
+	}
+	w("/-- binary operators with a production `value NOT T value` -/\ndef negatedOps : List Term := [%s]\n\n", strings.Join(negs, ", "))
+	w("/-- productions `value [NOT] T value U value` (no %%prec: the rule has the level of U): (T, U, with NOT) -/\ndef betweenOps : List (Term × Term × Bool) := [%s]\n\n", strings.Join(btws, ", "))
+	w("/-- productions `value [NOT] T row_value`: (T, with NOT) -/\ndef inOps : List (Term × Bool) := [%s]\n\nend Csvq.Gen.Precedence\n", strings.Join(ins, ", "))
 	fmt.Print(o.String())
 }
